@@ -102,7 +102,7 @@ theorem event_inputOK (d : DNode) (i : Input) (hev : IsEvent i) (hs : d.m.isHeig
   | proposal p => trivial
   | prevote v => trivial
   | precommit v => trivial
-  | sync p vs => trivial
+  | sync p vs => exact hev.elim
 
 theorem feed_event_ok (env : Env) (d : DNode) (i : Input) (hd : DNodeOK env d) (hn : d.needStart = false)
     (hev : IsEvent i) : DNodeOK env (d.feed env i) := by
@@ -117,8 +117,16 @@ theorem feed_event_ok (env : Env) (d : DNode) (i : Input) (hd : DNodeOK env d) (
 /-- all validators' executable environments agree with the abstract one -/
 def NetOK (N : NetEnv) : Prop := N.E.WF ∧ ∀ p, EnvOK N.E (N.envOf p)
 
+/-- the history contains no message that the sender's machine did not broadcast -/
+structure HistComplete (net : Net) (H : Hist) : Prop where
+  proposal : ∀ a h r v, H.proposal a h r v →
+    ∃ q, Action.bcastProposal q ∈ (net.node a).out ∧ q.height = h ∧ q.round = r ∧ q.value = v ∧ q.sender = a
+  prevote : ∀ a h r id, H.prevote a h r id → Action.bcastPrevote ⟨h, r, a, id⟩ ∈ (net.node a).out
+  precommit : ∀ a h r id, H.precommit a h r id → Action.bcastPrecommit ⟨h, r, a, id⟩ ∈ (net.node a).out
+
 structure NetInv (N : NetEnv) (net : Net) (s : Sys) : Prop where
   reach : Reach N.E N.h0 s
+  complete : HistComplete net s.hist
   node : ∀ p, ¬ N.E.byz p →
     Sim N.E (N.envOf p) s (net.node p).m ∧ (net.node p).m.nodeAddr = p ∧
     Recorded (net.node p).out p s.hist ∧ DNodeOK (N.envOf p) (net.node p)
@@ -156,10 +164,35 @@ theorem net_feed (N : NetEnv) (ok : NetOK N) (net : Net) (s : Sys) (hinv : NetIn
     ∃ s', NetInv N (net.set p ((net.node p).feed (N.envOf p) i)) s' := by
   obtain ⟨hsim, hn, hrec, _⟩ := hinv.node p hb
   have hb' : ¬ N.E.byz (net.node p).m.nodeAddr := by rw [hn]; exact hb
-  obtain ⟨s', hsteps, hsim', hn', hoth, hle, hrec'⟩ :=
+  obtain ⟨s', hsteps, hsim', hn', hoth, hle, hrec', hfrom⟩ :=
     step_sim N.E (N.envOf p) (ok.2 p) ok.1 s (net.node p).m i hb' hsim hok
       (fun c hc => deliverable_auth N net s hinv c (hdel c hc))
-  refine ⟨s', Reach_steps N.E N.h0 s s' hinv.reach hsteps, ?_⟩
+  rw [hn] at hfrom
+  have hout : ∀ a x, x ∈ (net.node a).out →
+      x ∈ ((net.set p ((net.node p).feed (N.envOf p) i)).node a).out := by
+    intro a x hx
+    by_cases e : a = p
+    · rw [e] at hx ⊢; simp only [Net.set, if_true, DNode.feed]; exact List.mem_append_left _ hx
+    · simp only [Net.set, e, if_false]; exact hx
+  have hnew : ∀ x, x ∈ ((net.node p).m.step (N.envOf p) i).2 →
+      x ∈ ((net.set p ((net.node p).feed (N.envOf p) i)).node p).out := by
+    intro x hx
+    simp only [Net.set, if_true, DNode.feed]; exact List.mem_append_right _ hx
+  refine ⟨s', Reach_steps N.E N.h0 s s' hinv.reach hsteps, ?_, ?_⟩
+  · refine ⟨?_, ?_, ?_⟩
+    · intro a h r v hx
+      rcases hfrom.proposal a h r v hx with hx | ⟨e, q, hq, r1, r2, r3, r4⟩
+      · obtain ⟨q, hq, r1, r2, r3, r4⟩ := hinv.complete.proposal a h r v hx
+        exact ⟨q, hout a _ hq, r1, r2, r3, r4⟩
+      · rw [e]; exact ⟨q, hnew _ hq, r1, r2, r3, r4⟩
+    · intro a h r id hx
+      rcases hfrom.prevote a h r id hx with hx | ⟨e, hq⟩
+      · exact hout a _ (hinv.complete.prevote a h r id hx)
+      · rw [e]; exact hnew _ hq
+    · intro a h r id hx
+      rcases hfrom.precommit a h r id hx with hx | ⟨e, hq⟩
+      · exact hout a _ (hinv.complete.precommit a h r id hx)
+      · rw [e]; exact hnew _ hq
   intro q hq
   by_cases e : q = p
   · rw [e]
@@ -187,7 +220,7 @@ theorem net_step_inv (N : NetEnv) (ok : NetOK N) (a b : Net) (s : Sys) (hinv : N
       (feed_event_ok (N.envOf p) _ i hd hn hev)
 
 theorem net_init_inv (N : NetEnv) : NetInv N (Net.init N) (Sys.init N.h0) := by
-  refine ⟨Reach.init, fun p _ => ⟨Sim_init N.E (N.envOf p) N.h0 p, rfl, ?_, new_MInv _ _ _, ?_⟩⟩
+  refine ⟨Reach.init, ⟨fun _ _ _ _ hx => hx.elim, fun _ _ _ _ hx => hx.elim, fun _ _ _ _ hx => hx.elim⟩, fun p _ => ⟨Sim_init N.E (N.envOf p) N.h0 p, rfl, ?_, new_MInv _ _ _, ?_⟩⟩
   · intro a ha; simp [Net.init] at ha
   · refine ⟨fun h => ?_, fun q hq => ?_⟩
     · simp [Net.init] at h
@@ -208,10 +241,10 @@ theorem net_agreement (N : NetEnv) (ok : NetOK N) (net : Net) (hr : NetReach N n
     (hq : Action.commit q ∈ (net.node p).out) (hq' : Action.commit q' ∈ (net.node p').out)
     (hh : q.height = q'.height) : q.value = q'.value := by
   obtain ⟨s, hi⟩ := net_reach_inv N ok net hr
-  have d1 : s.hist.decision p q.height q.value := (hi.node p hp).2.2.1 _ hq
-  have d2 : s.hist.decision p' q'.height q'.value := (hi.node p' hp').2.2.1 _ hq'
+  have d1 : s.hist.decision p q.height q.round q.value := (hi.node p hp).2.2.1 _ hq
+  have d2 : s.hist.decision p' q'.height q'.round q'.value := (hi.node p' hp').2.2.1 _ hq'
   rw [← hh] at d2
-  exact agreement_of_inv N.E ok.1 s (inv_reach N.E N.h0 s hi.reach) p p' hp hp' q.height _ _ d1 d2
+  exact agreement_of_inv N.E ok.1 s (inv_reach N.E N.h0 s hi.reach) p p' hp hp' q.height _ _ _ _ d1 d2
 
 theorem net_one_vote (N : NetEnv) (ok : NetOK N) (net : Net) (hr : NetReach N net)
     (p : Addr) (hp : ¬ N.E.byz p) (v v' : Vote) (hh : v.height = v'.height) (hrd : v.round = v'.round) :
@@ -232,15 +265,51 @@ theorem net_one_vote (N : NetEnv) (ok : NetOK N) (net : Net) (hr : NetReach N ne
     rw [← hh, ← hrd] at a2
     exact hinv.pc_unique _ _ _ _ a1 a2
 
-/-- every value a machine commits is valid for the application and comes from a proposal whose
-sender is the proposer of its (height, round) -/
+/-- every value a machine commits is valid for the application, comes from a proposal whose sender
+is the proposer of its (height, round), and that proposer — unless Byzantine — really broadcast a
+proposal with this value for this height and round -/
 theorem net_validity (N : NetEnv) (ok : NetOK N) (net : Net) (hr : NetReach N net)
     (p : Addr) (hp : ¬ N.E.byz p) (q : Proposal) (hq : Action.commit q ∈ (net.node p).out) :
-    N.E.valid q.value = true ∧ q.sender = N.E.proposer q.height q.round := by
+    N.E.valid q.value = true ∧ q.sender = N.E.proposer q.height q.round ∧
+    (N.E.byz q.sender ∨ ∃ q', Action.bcastProposal q' ∈ (net.node q.sender).out ∧
+      q'.height = q.height ∧ q'.round = q.round ∧ q'.value = q.value ∧ q'.sender = q.sender) := by
   obtain ⟨s, hi⟩ := net_reach_inv N ok net hr
-  have := (hi.node p hp).2.2.2.2.2 q hq
+  have h1 := (hi.node p hp).2.2.2.2.2 q hq
   rw [(ok.2 p).valid, (ok.2 p).proposer]
-  exact this
+  refine ⟨h1.1, h1.2, ?_⟩
+  have d : s.hist.decision p q.height q.round q.value := (hi.node p hp).2.2.1 _ hq
+  obtain ⟨_, _, hprop⟩ := (inv_reach N.E N.h0 s hi.reach p hp).decided _ _ _ d
+  have hs : q.sender = N.E.proposer q.height q.round := by rw [(ok.2 p).proposer]; exact h1.2
+  rw [← hs] at hprop
+  rcases hprop with hb | hh
+  · exact Or.inl hb
+  · exact Or.inr (hi.complete.proposal _ _ _ _ hh)
+
+/-- `2f+1` prevotes for `v` in round `r` of height `h`, counted over what the machines of the
+correct validators really broadcast (Byzantine validators count as having voted). -/
+def NetPolka (N : NetEnv) (net : Net) (h : Height) (r : Round) (v : Val) : Prop :=
+  qN (N.E.N h) ≤ N.E.wsum h (fun a => N.E.byz a ∨ Action.bcastPrevote ⟨h, r, a, some v⟩ ∈ (net.node a).out)
+
+/-- **Lock rule for the composed system.** If the machine of a correct validator broadcast a
+precommit for `v` in round `r` and a prevote for another value `v'` in a later round `r'` of the
+same height, then validators holding a quorum of the voting power (Byzantine ones, or correct ones
+whose machines really broadcast it) prevoted `v'` in some round `vr` with `r ≤ vr < r'` — the unlock
+condition of line 28. -/
+theorem net_lock_respected (N : NetEnv) (ok : NetOK N) (net : Net) (hr : NetReach N net)
+    (p : Addr) (hp : ¬ N.E.byz p) (h : Height) (r r' : Round) (v v' : Val)
+    (hpc : Action.bcastPrecommit ⟨h, r, p, some v⟩ ∈ (net.node p).out)
+    (hpv : Action.bcastPrevote ⟨h, r', p, some v'⟩ ∈ (net.node p).out)
+    (hlt : r < r') (hne : v ≠ v') : ∃ vr, r ≤ vr ∧ vr < r' ∧ NetPolka N net h vr v' := by
+  obtain ⟨s, hi⟩ := net_reach_inv N ok net hr
+  have hrec := (hi.node p hp).2.2.1
+  have a1 : s.hist.precommit p h r (some v) := hrec _ hpc
+  have a2 : s.hist.prevote p h r' (some v') := hrec _ hpv
+  obtain ⟨vr, h1, h2, h3⟩ := (inv_reach N.E N.h0 s hi.reach p hp).unlock h r r' v v' a2 a1 hlt hne
+  refine ⟨vr, h1, h2, Nat.le_trans h3 (wsum_mono N.E h _ _ ?_)⟩
+  intro a _ hx
+  rcases hx with hb | hv
+  · exact Or.inl hb
+  · exact Or.inr (hi.complete.prevote _ _ _ _ hv)
 
 theorem net_discipline (N : NetEnv) (ok : NetOK N) (net : Net) (hr : NetReach N net)
     (p : Addr) (hp : ¬ N.E.byz p) (hn : (net.node p).needStart = false) :
